@@ -105,7 +105,15 @@ def check_logs(scratch):
                 if len(f) != 5 or f[0] not in algos:
                     continue
                 kind, seed, length, got = int(f[1]), int(f[2]), int(f[3]), f[4]
-                want = algos[f[0]](gen_message(kind, seed, length)).hexdigest()
+                if kind == 1 and length > (1 << 24):
+                    h = algos[f[0]]()           # huge all-zero message: streamed
+                    z = bytes(1 << 24)
+                    for _ in range(length >> 24):
+                        h.update(z)
+                    h.update(bytes(length & ((1 << 24) - 1)))
+                    want = h.hexdigest()
+                else:
+                    want = algos[f[0]](gen_message(kind, seed, length)).hexdigest()
                 if want != got:
                     bad.append(("C14:%s:value" % f[0],
                                 "len=%d kind=%d seed=%d tlx=%s hashlib=%s" % (length, kind, seed, got, want)))
